@@ -6,7 +6,7 @@
 use std::str::FromStr;
 
 use miniscript::policy::Concrete;
-use miniscript::{Descriptor, DescriptorPublicKey};
+use miniscript::DescriptorPublicKey;
 
 use crate::keys::{HashKind, KeyForm, KeyUniverse};
 use crate::rng::Rng;
@@ -604,7 +604,6 @@ pub const SHAPES: &[&str] = &[
     "or_i(0,and_v(v:pk(@K),@O))",
     "andor(pk(@K),pk(@K),0)",
     "and_v(v:pk(@K),andor(pk(@K),@O,@A))",
-    "or_c(pk(@K),and_v(v:pk(@K),v:@H))",
     "t:or_c(pk(@K),and_v(v:pk(@K),v:@H))",
     "and_v(v:or_d(pk(@K),@H),pk(@K))",
     "or_d(pkh(@K),and_v(v:pkh(@K),@O))",
